@@ -48,6 +48,9 @@ def run(ctx):
         for s in scen:
             f.write(json.dumps(s) + "\n")
     drv = ctx.build_harness()
+    # the fault-free runs once now ... (repeated at the end of the check in another process with another environment)
+    first = ctx.path("fault-first.ndjson")
+    ctx.drv("faults", "-seed", ctx.seed, "-scen", sf, "-out", first, "-baseonly")
     shards = vlib.NCPU
     procs, files = [], []
     for k in range(shards):
@@ -79,6 +82,21 @@ def run(ctx):
     ctx.nontrivial = injected
     ctx.cover.update(recipes=len(scen), injected_faults=sum(v["extra"]["error"] for v in verdicts), rechunked_runs=sum(v["extra"]["short"] for v in verdicts),
                      leaves_run_twice=cleaves + wleaves)
+    # ... and again: other process id, other environment, other working directory, later (>= 20 s after the first run)
+    import time
+    wait = 20 - (time.time() - os.path.getmtime(first))
+    if wait > 0:
+        time.sleep(wait)
+    second = ctx.path("fault-second.ndjson")
+    other = os.path.join(ctx.scratch, "elsewhere")
+    os.makedirs(other, exist_ok=True)
+    env2 = dict(ctx.env, TZ="Pacific/Kiritimati", LANG="tr_TR.UTF-8", LC_ALL="tr_TR.UTF-8", HOME=other, USER="someoneelse", HOSTNAME="elsewhere", GOMAXPROCS="3")
+    r2 = subprocess.run([drv, "faults", "-seed", str(ctx.seed), "-scen", sf, "-out", second, "-compare", first], cwd=other, env=env2, capture_output=True, text=True)
+    if r2.returncode != 0:
+        raise Undecided("faults rerun failed: " + r2.stderr[-500:])
+    rv = ctx.validate("FaultTrace", second, tag="rerun")
+    ctx.absorb([rv], [second], lambda l, f, why: dict(kind="rerun", why=why, event=vlib.nth_line(f, l), scenario=scen[vlib.nth_line(f, l)["id"]]))
+    ctx.cover["reruns_in_another_process_and_environment"] = rv["extra"]["rerun"]
     # the library reads randomness through crypto/rand only: imports of the package as built
     r = subprocess.run(["go", "list", "-f", "{{join .Imports \"\\n\"}}", "."], cwd=vlib.REPO, env=ctx.env, capture_output=True, text=True)
     imps = set(r.stdout.split())
